@@ -404,7 +404,10 @@ def evaluate(case):
     models = list(dict.fromkeys(r["model"] for r in recs))
     ref = reference(recs, models[0])
     rng = random.Random(case)
-    texts = {"pdb": T.to_pdb(recs, ter=rng.random() < 0.7), "cif": T.to_cif(recs, null_icode=rng.choice(["?", "."]), charge_column=rng.random() < 0.3, auth_atom=True)}
+    # half of the generated mmCIF texts number label_seq_id like auth_seq_id (files converted from PDB data, the library's own write_cif among
+    # them): residues 10 and 10A then share the label identifier and differ in the author identifier only
+    cif_recs = [dict(r, label_seq=r["resnum"]) if r["label_seq"] is not None else r for r in recs] if not case.startswith("corpus:") and random.Random(case + "/label").random() < 0.5 else recs
+    texts = {"pdb": T.to_pdb(recs, ter=rng.random() < 0.7), "cif": T.to_cif(cif_recs, null_icode=rng.choice(["?", "."]), charge_column=rng.random() < 0.3, auth_atom=True)}
     views = {}
     with tempfile.TemporaryDirectory(prefix="c15-") as tmp:
         for fmt, text in texts.items():
